@@ -87,6 +87,11 @@ def build(x, top, case, logfile):
     pre = sorted({i % B + 1 for i in case["pre_grown"]})
     if len(pre) == B:
         pre = pre[:-1]
+    if case.get("peek"):
+        # the user looks at the freshly sown crop (nothing grown yet) before
+        # the first batches are grown; the same object writes the script
+        with core.quiet():
+            str(crop), crop.num_results, crop.missing_results()
     for i in pre:
         crop.grow(i)
     if case.get("orphan_tmp"):
@@ -463,6 +468,7 @@ def strategy(draw, executed=False):
         case["batch_ids"] = None
     case["parent_style"] = draw(st.sampled_from(["abs", "abs", "rel", "cwd"]))
     case["orphan_tmp"] = draw(st.sampled_from([0, 0, 1, 2]))
+    case["peek"] = draw(st.booleans())
     if draw(st.sampled_from([False, False, True])):
         case["crop_name"] = "simulate_ground_state_energy_v2"
     if executed:
